@@ -143,7 +143,12 @@ func main() {
 	contract := flag.Bool("contract", true, "only block-sized ReadTo buffers (the documented use)")
 	dirFlag := flag.String("dir", "", "scratch directory for disk images")
 	only := flag.String("impl", "", "restrict to one implementation")
+	mode := flag.String("mode", "hist", "hist | reopen")
 	flag.Parse()
+	if *mode == "reopen" {
+		reopenMain(*seed, *nh, *maxOps, *dirFlag)
+		return
+	}
 	dir := *dirFlag
 	if dir == "" {
 		d, err := os.MkdirTemp("", "verif-diskdrv-")
